@@ -27,6 +27,11 @@
 
 VfCounters g_cnt;
 
+// Hint for the CBMC model only (no effect natively, see rt/cbmc_rt.h VF_UNTAG): the fast iterator keeps the vector's
+// address with the bucket number in its low 6 bits (vb_); the model resolves `vb_ & ~63` to a registered vector under
+// a checked equality instead of treating it as an arbitrary integer-derived pointer.
+extern "C" void vf_untag_register(void* p);
+
 struct Elem : Tracked {
   Elem() noexcept : Tracked(-1) {}
   explicit Elem(int32_t x) noexcept : Tracked(x) {}
@@ -173,12 +178,16 @@ VF_NOINLINE static void scenario() {
 #else
     Vec v((size_t)VF_FIRST, dispenso::ReserveTag);
 #endif
+    vf_untag_register(&v);
     for (int32_t i = 0; i < VF_PREFIX; ++i) {
       v.emplace_back(10 + i);
       g.a[i] = 10 + i;
       g.n = (uint32_t)i + 1;
     }
     vf_check(g_cnt.live == VF_PREFIX, "prefix: live objects == size");
+    // reachability markers for the vacuity twin: a defect that crashes the operation (null-derived write) must not
+    // make the whole instance "vacuous"; on a correct tree all three markers are reachable
+    vf_reach("prefix built");
     const uint32_t n = VF_PREFIX;
     int32_t x = sym();
     int32_t others = 0;  // live objects that are not elements of v at the time of the check
@@ -218,6 +227,7 @@ VF_NOINLINE static void scenario() {
 #elif VF_SCEN == S_INSERT_VRANGE
     {
       Vec w((size_t)VF_CNT, Elem(x));  // first bucket >= 2
+      vf_untag_register(&w);
       for (uint32_t i = 0; i < VF_CNT; ++i) w[i].v = x + (int32_t)i;
       auto it = v.insert(v.cbegin() + (ssize_t)P, w.cbegin(), w.cend());
       vf_check(it - v.begin() == (ssize_t)P, "insert returns the position of the first inserted element");
@@ -357,9 +367,13 @@ VF_NOINLINE static void scenario() {
 #error unknown VF_SCEN
 #endif
     (void)others;
+    vf_reach("operation returned");
     checkAll(v, g, 0);
+#ifndef VF_NOWALK
     walk(v, g);
+#endif
   }
+  vf_reach("vector destroyed");
   vf_check(g_cnt.live == 0, "every element is destroyed by the time the vector is gone");
   vf_check(g_cnt.ctor == g_cnt.dtor, "constructions and destructions balance");
 }
